@@ -6,6 +6,31 @@ From Eino Require Import Base.Util Base.Universe Model.Ser Model.SerCheckpoint P
 Import ListNotations.
 Local Open Scope bool_scope.
 
+(* every defined container type of the value registered => those at interface positions are *)
+Lemma def_ty_in_defs : forall v t, In t (def_ty v) -> In t (defs_of v).
+Proof. destruct v; simpl; try contradiction. intros t [<-|[]]. now left. Qed.
+Lemma boxed_in_defs : forall v t, In t (boxed_defs v) -> In t (defs_of v).
+Proof.
+  induction v using val_ind'; simpl; intros t0 Hin; try contradiction.
+  - apply in_flat_map in Hin. destruct Hin as [fv [Hfv Hin]]. apply in_flat_map. exists fv. split; [exact Hfv|].
+    rewrite Forall_forall in H. now apply H.
+  - now apply IHv.
+  - apply in_flat_map in Hin. destruct Hin as [e [He Hin]]. apply in_flat_map. exists e. split; [exact He|].
+    rewrite Forall_forall in H. now apply H.
+  - apply in_flat_map in Hin. destruct Hin as [kv [Hkv Hin]]. apply in_flat_map. exists kv. split; [exact Hkv|].
+    rewrite Forall_forall in H. destruct (H _ Hkv) as [Ha Hb].
+    apply in_app_or in Hin. apply in_or_app. destruct Hin as [Hin|Hin]; [left; now apply Ha | right; now apply Hb].
+  - apply in_app_or in Hin. destruct Hin as [Hin|Hin]; [now apply def_ty_in_defs | now apply IHv].
+  - apply in_flat_map in Hin. destruct Hin as [e [He Hin]]. apply in_flat_map. exists e. split; [exact He|].
+    rewrite Forall_forall in H. now apply H.
+  - right. now apply IHv.
+Qed.
+Lemma defs_registered_ok : forall reg v, defs_registered reg v -> defs_ok reg v.
+Proof.
+  intros reg v H. unfold defs_registered, defs_ok in *. rewrite Forall_forall in *. intros t Hin.
+  apply H. apply in_app_or in Hin. destruct Hin; [now apply def_ty_in_defs | now apply boxed_in_defs].
+Qed.
+
 (* supported value => the encoder succeeds and the decoder returns an equivalent value *)
 Lemma supported_roundtrips_lemma :
   forall (J JK : Type) (jenc : base -> lit -> res J) (jdec : base -> J -> res lit)
@@ -16,15 +41,16 @@ Lemma supported_roundtrips_lemma :
     (forall n ds, struct_fields env n = Some ds -> NoDup (map fst ds)) ->
     forall v,
       wt env v = true -> is_iface (ty_of v) = false -> safe v ->
-      registered reg v -> encodable J JK jenc kenc v ->
+      registered reg v -> defs_registered reg v -> encodable J JK jenc kenc v ->
       exists oi v', marshal J JK jenc kenc fixed reg v = Ok oi /\
                     unmarshal J JK jdec kdec fixed reg env oi = Ok v' /\
                     v' ≅ v /\ dyn_ty v' = dyn_ty v.
 Proof.
-  intros J JK jenc jdec kenc kdec reg env jrt krt Hreg Henv v Hwt Hi Hs Hr He.
-  destruct (enc_succeeds_all J JK jenc kenc reg env v Hwt Hr He 0%nat) as [oi Hoi].
+  intros J JK jenc jdec kenc kdec reg env jrt krt Hreg Henv v Hwt Hi Hs Hr Hdr He.
+  destruct (enc_succeeds_all J JK jenc kenc reg env v Hwt Hr He Hdr 0%nat) as [oi Hoi].
   { intro Hc. congruence. }
-  destruct (enc_dec_roundtrip_lemma J JK jenc jdec kenc kdec reg env jrt krt Hreg Henv v oi Hwt Hi Hs Hoi)
+  destruct (enc_dec_roundtrip_lemma J JK jenc jdec kenc kdec reg env jrt krt Hreg Henv v oi Hwt Hi Hs
+              (defs_registered_ok _ _ Hdr) Hoi)
     as [v' [Hd [Hv Ht]]].
   exists oi, v'. auto.
 Qed.
@@ -32,11 +58,11 @@ Qed.
 (* the instance of the model the correspondence check runs *)
 Lemma roundtrip_instance_lemma : forall reg env v oi,
   str_nodup (map fst reg) = true -> env_names_ok env = true ->
-  wt env v = true -> is_iface (ty_of v) = false -> safe v ->
+  wt env v = true -> is_iface (ty_of v) = false -> safe v -> defs_ok reg v ->
   enc_c fixed reg v = Ok oi ->
   exists v', dec_c fixed reg env oi = Ok v' /\ v' ≅ v /\ dyn_ty v' = dyn_ty v.
 Proof.
-  intros reg env v oi Hreg Henv Hwt Hi Hs H.
+  intros reg env v oi Hreg Henv Hwt Hi Hs Hdo H.
   eapply (enc_dec_roundtrip_lemma lit lit jenc_c jdec_c kenc_c kdec_c reg env jrt_c krt_c); eauto.
   - now apply str_nodup_ok.
   - now apply env_names_ok_spec.
@@ -53,15 +79,15 @@ Lemma checkpoint_roundtrip_lemma :
     NoDup (map fst (ckpt_reg ureg)) ->
     (forall n ds, struct_fields (ckpt_senv uenv) n = Some ds -> NoDup (map fst ds)) ->
     forall cp oi,
-      has_type (ckpt_senv uenv) cp t_checkpoint_ptr = true -> safe cp ->
+      has_type (ckpt_senv uenv) cp t_checkpoint_ptr = true -> safe cp -> defs_ok (ckpt_reg ureg) cp ->
       marshal J JK jenc kenc fixed (ckpt_reg ureg) cp = Ok oi ->
       exists cp', unmarshal J JK jdec kdec fixed (ckpt_reg ureg) (ckpt_senv uenv) oi = Ok cp' /\
                   cp' ≅ cp /\ ty_of cp' = t_checkpoint_ptr.
 Proof.
-  intros J JK jenc jdec kenc kdec ureg uenv jrt krt Hreg Henv cp oi Ht Hs H.
+  intros J JK jenc jdec kenc kdec ureg uenv jrt krt Hreg Henv cp oi Ht Hs Hdo H.
   unfold has_type in Ht. apply andb_true_iff in Ht. destruct Ht as [Hwt Hty]. apply ty_eqb_eq in Hty.
   assert (Hi : is_iface (ty_of cp) = false) by (rewrite Hty; reflexivity).
-  destruct (enc_dec_roundtrip_lemma J JK jenc jdec kenc kdec _ _ jrt krt Hreg Henv cp oi Hwt Hi Hs H)
+  destruct (enc_dec_roundtrip_lemma J JK jenc jdec kenc kdec _ _ jrt krt Hreg Henv cp oi Hwt Hi Hs Hdo H)
     as [cp' [Hd [Hv Hdt]]].
   exists cp'. split; [exact Hd|]. split; [exact Hv|].
   rewrite <- Hty. now apply veq_ty_of.
@@ -71,7 +97,7 @@ Qed.
 Definition rt_statement (fx : fixes) : Prop :=
   forall reg env v oi,
     str_nodup (map fst reg) = true -> env_names_ok env = true ->
-    wt env v = true -> is_iface (ty_of v) = false -> safe v ->
+    wt env v = true -> is_iface (ty_of v) = false -> safe v -> defs_ok reg v ->
     enc_c fx reg v = Ok oi ->
     exists v', dec_c fx reg env oi = Ok v' /\ v' ≅ v /\ dyn_ty v' = dyn_ty v.
 
@@ -91,11 +117,11 @@ Definition w_b : val := VPtr (VNilPtr (TBase BInt)).
 (* F-C12b: nil pointer-to-pointer-to-int came back typed pointer-to-int *)
 Definition w_b2 : val := VNilPtr (TPtr (TBase BInt)).
 
-Ltac safe_tac := unfold safe; simpl; repeat constructor.
+Ltac safe_tac := unfold safe, defs_ok; simpl; repeat constructor.
 
 Lemma rt_v0_refuted_a : ~ rt_statement v0.
 Proof.
-  intro H. destruct (H builtin_registry [] w_a _ eq_refl eq_refl eq_refl eq_refl ltac:(safe_tac) eq_refl)
+  intro H. destruct (H builtin_registry [] w_a _ eq_refl eq_refl eq_refl eq_refl ltac:(safe_tac) ltac:(safe_tac) eq_refl)
     as [v' [Hd [_ Ht]]].
   vm_compute in Hd. inversion Hd; subst. discriminate Ht.
 Qed.
@@ -105,13 +131,13 @@ Lemma dec_v0_panics_a :
 Proof. split; [reflexivity|]. split; [safe_tac|]. eexists. split; reflexivity. Qed.
 Lemma rt_v0_refuted_b : ~ rt_statement v0.
 Proof.
-  intro H. destruct (H builtin_registry [] w_b _ eq_refl eq_refl eq_refl eq_refl ltac:(safe_tac) eq_refl)
+  intro H. destruct (H builtin_registry [] w_b _ eq_refl eq_refl eq_refl eq_refl ltac:(safe_tac) ltac:(safe_tac) eq_refl)
     as [v' [Hd [Hv _]]].
   vm_compute in Hd. inversion Hd; subst. inversion Hv.
 Qed.
 Lemma rt_v0_refuted_b2 : ~ rt_statement v0.
 Proof.
-  intro H. destruct (H builtin_registry [] w_b2 _ eq_refl eq_refl eq_refl eq_refl ltac:(safe_tac) eq_refl)
+  intro H. destruct (H builtin_registry [] w_b2 _ eq_refl eq_refl eq_refl eq_refl ltac:(safe_tac) ltac:(safe_tac) eq_refl)
     as [v' [Hd [_ Ht]]].
   vm_compute in Hd. inversion Hd; subst. discriminate Ht.
 Qed.
@@ -135,4 +161,86 @@ Proof.
   - intro H. inversion H as [|? ? Hj _]; subst. vm_compute in Hj. discriminate Hj.
   - eexists. eexists. split; [reflexivity|]. split; [vm_compute; reflexivity|].
     intro Hv. inversion Hv.
+Qed.
+
+(* ------------------------------------------------------------------ round 2 repairs *)
+Definition without_e : fixes := {| fix_a := true; fix_b := true; fix_e := false; fix_f := true; fix_i := true |}.
+Definition without_f : fixes := {| fix_a := true; fix_b := true; fix_e := true; fix_f := false; fix_i := true |}.
+Definition without_i : fixes := {| fix_a := true; fix_b := true; fix_e := true; fix_f := true; fix_i := false |}.
+
+Definition t_int := TBase BInt.
+Definition vint (z : Z) : val := VBase BInt (LInt z).
+(* F-C12e: a struct field of array type: reflect.Set of the rebuilt slice panicked; an
+   array passed to Marshal came back as a slice *)
+Definition w_e_env : senv := [(0%N, [("F"%string, TArray 2 t_int)])].
+Definition w_e : val := VStruct 0 [("F"%string, VArray t_int [vint 1; vint 2])].
+Definition w_e2 : val := VArray t_int [vint 1; vint 2].
+(* F-C12f: a value of a registered defined slice type came back as the unnamed slice type *)
+Definition w_f_reg : registry := (builtin_registry ++ [("nsl"%string, TDef 1 (TSlice t_int))])%list.
+Definition w_f : val := VDef 1 (VSlice t_int (Some [vint 1])).
+(* F-C12i: a non-nil pointer to an unregistered defined map type in a struct field *)
+Definition t_umap := TMap (TBase BString) t_int.
+Definition w_i_env : senv := [(0%N, [("F"%string, TPtr (TDef 2 t_umap))])].
+Definition w_i : val :=
+  VStruct 0 [("F"%string, VPtr (VDef 2 (VMap (TBase BString) t_int (Some [(VBase BString (LStr "a"), vint 1)]))))].
+(* F-C12g (known): an unregistered defined slice type at top level / in an interface *)
+Definition w_g : val := VDef 2 (VSlice (TBase BString) (Some [VBase BString (LStr "u")])).
+Definition w_g2 : val := VSlice TAny (Some [VIface TAny (Some w_g)]).
+
+Lemma array_field_panicked_before_e :
+  wt w_e_env w_e = true /\ safe w_e /\ defs_ok w_a_reg w_e /\
+  (exists oi, enc_c without_e w_a_reg w_e = Ok oi /\ dec_c without_e w_a_reg w_e_env oi = Panic) /\
+  (exists oi, enc_c fixed w_a_reg w_e = Ok oi /\ dec_c fixed w_a_reg w_e_env oi = Ok w_e).
+Proof.
+  split; [reflexivity|]. split; [safe_tac|]. split; [safe_tac|].
+  split; eexists; split; reflexivity.
+Qed.
+Lemma array_retyped_before_e :
+  wt [] w_e2 = true /\
+  (exists oi v', enc_c without_e builtin_registry w_e2 = Ok oi /\
+                 dec_c without_e builtin_registry [] oi = Ok v' /\ dyn_ty v' <> dyn_ty w_e2) /\
+  (exists oi, enc_c fixed builtin_registry w_e2 = Ok oi /\ dec_c fixed builtin_registry [] oi = Ok w_e2).
+Proof.
+  split; [reflexivity|]. split.
+  - eexists. eexists. split; [reflexivity|]. split; [reflexivity|]. discriminate.
+  - eexists. split; reflexivity.
+Qed.
+Lemma defined_container_retyped_before_f :
+  wt [] w_f = true /\ defs_ok w_f_reg w_f /\
+  (exists oi v', enc_c without_f w_f_reg w_f = Ok oi /\
+                 dec_c without_f w_f_reg [] oi = Ok v' /\ dyn_ty v' <> dyn_ty w_f) /\
+  (exists oi, enc_c fixed w_f_reg w_f = Ok oi /\ dec_c fixed w_f_reg [] oi = Ok w_f).
+Proof.
+  split; [reflexivity|]. split.
+  - unfold defs_ok, known. simpl. repeat constructor. discriminate.
+  - split.
+    + eexists. eexists. split; [reflexivity|]. split; [reflexivity|]. discriminate.
+    + eexists. split; reflexivity.
+Qed.
+Lemma ptr_to_unregistered_def_panicked_before_i :
+  wt w_i_env w_i = true /\ safe w_i /\ defs_ok w_a_reg w_i /\
+  (exists oi, enc_c without_i w_a_reg w_i = Ok oi /\ dec_c without_i w_a_reg w_i_env oi = Panic) /\
+  enc_c fixed w_a_reg w_i = Err E_UNKNOWN_TYPE.
+Proof.
+  split; [reflexivity|]. split; [safe_tac|]. split; [safe_tac|].
+  split; [eexists; split; reflexivity | reflexivity].
+Qed.
+(* F-C12g: the hypothesis [defs_ok] cannot be dropped *)
+Lemma unregistered_def_refuted :
+  wt [] w_g = true /\ safe w_g /\ ~ defs_ok builtin_registry w_g /\
+  (exists oi v', enc_c fixed builtin_registry w_g = Ok oi /\
+                 dec_c fixed builtin_registry [] oi = Ok v' /\ dyn_ty v' <> dyn_ty w_g) /\
+  wt [] w_g2 = true /\ safe w_g2 /\ ~ defs_ok builtin_registry w_g2 /\
+  (exists oi v', enc_c fixed builtin_registry w_g2 = Ok oi /\
+                 dec_c fixed builtin_registry [] oi = Ok v' /\ ~ v' ≅ w_g2).
+Proof.
+  split; [reflexivity|]. split; [safe_tac|]. split.
+  { intro H. unfold defs_ok, known in H. simpl in H. inversion H as [|? ? H1 _]; subst. now apply H1. }
+  split.
+  { eexists. eexists. split; [reflexivity|]. split; [reflexivity|]. discriminate. }
+  split; [reflexivity|]. split; [safe_tac|]. split.
+  { intro H. unfold defs_ok, known in H. simpl in H. inversion H as [|? ? H1 _]; subst. now apply H1. }
+  eexists. eexists. split; [reflexivity|]. split; [reflexivity|].
+  intro Hv. inversion Hv as [| | | | |? ? ? HF| | | | |]; subst. simpl in HF.
+  inversion HF as [|? ? ? ? Hx _]; subst. inversion Hx as [| | | | | | | |? ? ? Hy| |]; subst. inversion Hy.
 Qed.
